@@ -704,7 +704,12 @@ class KWay:
                     guard = (s_, b[0])
                     break
         if guard is None:
-            self.add("UNDECIDED", "empty", where, "no array left: the empty result is returned before concatenate", "guard not found")
+            early = [x for x in walk(f.node.body) if tname(x) == "ReturnStatNode" and x.pos[1] < self.loop.pos[1]]
+            if not early:
+                self.add("VIOLATED", "empty", where, "no array left: the empty result is returned before concatenate", "there is no return before the merge loop: with no (non-empty) array numpy.concatenate([]) raises ValueError",
+                         {"inputs": "[] or [[], []] -> ValueError: need at least one array to concatenate"})
+            else:
+                self.add("UNDECIDED", "empty", where, "no array left: the empty result is returned before concatenate", "guard not found")
             return self
         g, r = guard
         try:
